@@ -372,7 +372,7 @@ pub fn c32_from_str_six_letters() {
 //# props: C32, C31
 //# kind: bounded(28-letter names sharing the first 26 letters of u128::MAX's name, last two letters symbolic)
 //# fns: Rune::from_str
-//# tier: thorough
+//# tier: manual
 //# timeout: 900
 #[cfg_attr(kani, kani::proof)]
 #[cfg_attr(kani, kani::unwind(31))]
@@ -397,7 +397,7 @@ pub fn c32_from_str_range_boundary() {
 //# props: C32
 //# kind: bounded(runes below 26: one-letter names; the Display path through String/chars().nth() exhausts memory beyond that)
 //# fns: Rune::fmt (Display), Rune::from_str
-//# tier: thorough
+//# tier: manual
 //# timeout: 900
 #[cfg_attr(kani, kani::proof)]
 #[cfg_attr(kani, kani::unwind(28))]
@@ -414,7 +414,7 @@ pub fn c32_display_round_trip_short() {
 //# props: C32
 //# kind: complete (the single special-cased value)
 //# fns: Rune::fmt (Display), Rune::from_str
-//# tier: thorough
+//# tier: manual
 //# timeout: 600
 #[cfg_attr(kani, kani::proof)]
 #[cfg_attr(kani, kani::unwind(31))]
